@@ -600,8 +600,45 @@ def iszero(x):
     return False
 
 
+def _trig_refine(x):
+    """Angles that occur with several rational multiples of the same monomial (t and t/2): rewrite the sin/cos atoms of
+    the coarser multiples over the finest unit (double/triple-angle formulas).  Returns the rewritten element or None."""
+    K = CTX.kind
+    groups = {}
+    for v in x.atoms():
+        kd = K[v]
+        if kd[0] == 'fn' and kd[1] in ('sin', 'cos') and len(kd[2]) == 1 and len(kd[2][0].t) == 1:
+            (m, c), = kd[2][0].t.items()
+            if m and c > 0:
+                groups.setdefault(m, {}).setdefault(c, {})[kd[1]] = v
+    mapping = {}
+    for m, bycoef in groups.items():
+        if len(bycoef) < 2:
+            continue
+        unit = min(bycoef)
+        for c, atoms in bycoef.items():
+            k = c / unit
+            if c == unit or k.denominator != 1 or not (2 <= k <= TRIG_MAXMULT):
+                continue
+            su, cu = _trig_pair(El({m: unit}))
+            s_, c_ = su, cu
+            for _ in range(int(k) - 1):
+                s_, c_ = s_ * cu + c_ * su, c_ * cu - s_ * su
+            if 'sin' in atoms:
+                mapping[atoms['sin']] = s_.norm()
+            if 'cos' in atoms:
+                mapping[atoms['cos']] = c_.norm()
+    if not mapping:
+        return None
+    return substitute(x, mapping)
+
+
 def eq(a, b):
-    return iszero(_el(a) - _el(b))
+    d = _el(a) - _el(b)
+    if iszero(d):
+        return True
+    d2 = _trig_refine(d.norm())
+    return d2 is not None and iszero(d2)
 
 
 def residue_has_defined(x):
